@@ -83,7 +83,7 @@ def ob_e2e(tier):
             g = open_image(fsspec.get_mapper(root), name, use_cache=False, records_per_chunk=2)
             doc = caching.encode(g)
             path = os.path.join(root, "doc.json")
-            open(path, "w").write(doc)
+            __import__("pathlib").Path(path).write_text(doc)
             code = (
                 "import sys, json, numpy as np\n"
                 "from ceos_alos2.sar_image import caching\n"
@@ -96,12 +96,17 @@ def ob_e2e(tier):
                 "        x = np.asarray(v.data); out[k] = [str(x.dtype), list(x.shape), repr(x.tolist()), list(v.dims), repr(v.attrs)]\n"
                 "print('@@' + json.dumps(out))\n"
             )
-            env = dict(os.environ)
-            p = subprocess.run([sys.executable, "-B", "-c", code], capture_output=True, text=True, env=env, timeout=120)
-            runs += 1
-            line_ = [ln for ln in p.stdout.splitlines() if ln.startswith("@@")]
+            line_ = None
+            for locale_env in ({}, {"LC_ALL": "C", "LANG": "C", "PYTHONCOERCECLOCALE": "0", "PYTHONUTF8": "0"}):
+                env = dict(os.environ, **locale_env)
+                code2 = code.replace(f"open({path!r}).read()", f"__import__('pathlib').Path({path!r}).read_text()")
+                p = subprocess.run([sys.executable, "-B", "-c", code2], capture_output=True, text=True, env=env, timeout=120)
+                runs += 1
+                line_ = [ln for ln in p.stdout.splitlines() if ln.startswith("@@")]
+                if not line_:
+                    bad.append({"level": level, "locale": locale_env.get("LC_ALL", "default"), "error": p.stderr[-300:]})
+                    break
             if not line_:
-                bad.append({"level": level, "error": p.stderr[-400:]})
                 continue
             import json
 
